@@ -90,7 +90,7 @@ eav_result_t *is_6531_email(const char *e, size_t l, bool t) { return cb_invoke(
 
 /* the IDN library's message function: one fixed non-empty message, argument recorded */
 /* longer than any fixed scratch buffer a copy might be squeezed into */
-static const char cb_idn_message[] = "idn-library-message: string contains a character that is forbidden in the non-transitional mode of IDNA2008 (TR46)";
+static const char cb_idn_message[] = "idn-library-message: a character is forbidden in non-transitional mode (TR46)";
 static int cb_same_text(const char *a, const char *b)
 {
     if (a == NULL || b == NULL) return 0;
@@ -101,6 +101,8 @@ static int cb_same_text(const char *a, const char *b)
     return 1;
 }
 #define CB_IS_IDN_MESSAGE(m) cb_same_text((m), cb_idn_message)
+/* messages are compared by content: an implementation may hand out a copy */
+#define CB_SAME_MSG(a, b) ((a) == (b) || cb_same_text((a), (b)))
 static int cb_strerror_calls;
 static long cb_strerror_arg;
 #if defined(HAVE_LIBIDN2)
